@@ -153,6 +153,29 @@ def handle (words : List String) : String :=
   if let some r := DrvC18.handle words then r else
   -- END C18
   match words with
+  -- BEGIN INT
+  | ["isteps", fuel, hex] =>
+    -- the statements of a program typed one by one at the interactive prompt (Model/Interp.lean `runInteractive`); answers the
+    -- outcome of every statement, the printed output, the variables and the depth of the control stack left behind
+    match SExp.readProgram (String.fromUTF8! (ByteArray.mk (bytesOfHex hex).toArray)) with
+    | none => "bad-prog"
+    | some prog =>
+      let funcs := collectFuncs prog
+      let vars0 := (mainDecls funcs prog).foldl (fun vs (n, t) => if vs.any (·.1 == n) then vs else vs ++ [(n, Val.null t)]) ([] : List (String × Val))
+      let (rs, st) := runInteractive funcs (fuel.toNat?.getD 100000) prog { vars := vars0 }
+      let showR := fun (r : Res Flow) => match r with
+        | .ok _ => "ok"
+        | .err c a => if c == oofCode then "oof" else resStr (.err c a : Res Val)
+        | .haz h => resStr (.haz h : Res Val)
+        | .unmodelled => "unmodelled"
+      "model=steps=" ++ ",".intercalate (rs.map showR) ++ " out=" ++ hexOfBytes st.output ++ " vars=" ++
+        ";".intercalate (st.vars.map fun (n, v) => n ++ ":" ++ valStr v) ++ " note=cd=" ++ toString st.ctl.length
+  | ["lockchk", hex] =>
+    -- the parser's lock check on a whole program (Model/Interp.lean `lockProgram`)
+    match SExp.readProgram (String.fromUTF8! (ByteArray.mk (bytesOfHex hex).toArray)) with
+    | none => "bad-prog"
+    | some prog => if lockProgram prog then "model=ok" else "model=perr " ++ toString Gen.EXC_PARSE_CONST_VIOLATION_S
+  -- END INT
   -- BEGIN C13
   | ["tok", hex, reader] => handleTok hex reader
   | ["tok", reader] => handleTok "" reader
